@@ -3,6 +3,7 @@
 From Coq Require Import List Arith Bool Lia Permutation.
 Import ListNotations.
 From Verif.C10 Require Import Model Proofs.
+Local Notation idc := (fun s0 : state => s0).
 
 Definition Acc (s : state) : Prop :=
   NoDup (enq s) /\ (forall x, In x (enq s) -> x < fresh s) /\
@@ -90,8 +91,8 @@ Hint Resolve Acc_comb_dec : acc.
 Lemma Acc_elem_fn c i b a s : Acc s -> Acc (elem_fn T c i b a s). Proof. unfold elem_fn. acc. Qed.
 Hint Resolve Acc_elem_fn : acc.
 
-Lemma Acc_exec_act s a : Acc s -> Acc (exec_act T s a). Proof. unfold exec_act. acc. Qed.
-Lemma Acc_exec_acts l s : Acc s -> Acc (fold_left (exec_act T) l s).
+Lemma Acc_exec_act s a : Acc s -> Acc (exec_act T idc s a). Proof. unfold exec_act. acc. Qed.
+Lemma Acc_exec_acts l s : Acc s -> Acc (fold_left (exec_act T idc) l s).
 Proof. apply fold_left_inv. intros; apply Acc_exec_act; auto. Qed.
 Hint Resolve Acc_exec_acts : acc.
 
@@ -127,14 +128,14 @@ Hint Resolve Acc_async_throw : acc.
 Lemma Acc_async_step b s : Acc s -> Acc (async_step T b s).
 Proof. intros H. unfold async_step. destruct (ab_rest b); [acc|]. split_pr. acc. Qed.
 Hint Resolve Acc_async_step : acc.
-Lemma Acc_exec_finally sc ful arg cap s : Acc s -> Acc (exec_finally T sc ful arg cap s).
+Lemma Acc_exec_finally sc ful arg cap s : Acc s -> Acc (exec_finally T idc sc ful arg cap s).
 Proof.
   intros H. unfold exec_finally. cbv beta zeta.
   destruct (s_ret sc); try solve [acc]; split_pr; split_nc; acc.
 Qed.
 Hint Resolve Acc_exec_finally : acc.
 
-Lemma Acc_exec_job j s : Acc s -> Acc (exec_job T j s).
+Lemma Acc_exec_job j s : Acc s -> Acc (exec_job T idc j s).
 Proof. unfold exec_job, new_pair_for, new_cap_int. cbv beta iota zeta. acc. Qed.
 
 Lemma Acc_comb_elem k cap c s x : Acc s -> Acc (comb_elem T k cap c s x).
